@@ -951,7 +951,7 @@ def store_eager(ctx: Ctx) -> None:
     ctx.ob(tz, cs[0] if cs else None, ok, "to_zarr computes only `if compute:`", sel="eager:to_zarr")
 
 
-@rule("RECHUNK-GRID-1", props=["C05"], floor=3)
+@rule("RECHUNK-GRID-1", props=["C05", "C14"], floor=3)
 def rechunk_grid(ctx: Ctx) -> None:
     """rechunk copies: on the irregular path the storage grid handed to the primitive is
     split_chunks(shape, copy chunks, target chunks) — chunks that fit into both grids, so every
